@@ -124,6 +124,10 @@ def _block(draw, idx, hexgeom, allow_oxide, isotopics, allow_grid):
         b["annular"] = draw(st.integers(0, 4)) == 0
         b["gap"] = draw(st.sampled_from(["bond", "bond", "void", "liner", None]))
         b["wire"] = draw(st.booleans())
+        # hex assemblies with an inner and an outer duct (the pin bundle sits in the inner one), optionally with the
+        # coolant between the ducts as a component of its own, linked to both ducts
+        b["twoDucts"] = bool(hexgeom and draw(st.integers(0, 2)) == 0)
+        b["interduct"] = draw(st.booleans())
         b["fr"] = [r4(draw(st.floats(0.85, 0.92))), r4(draw(st.floats(0.8, 0.95))), r4(draw(st.floats(0.45, 0.95)))]
         b["twoTypes"] = bool(draw(st.integers(0, 3)) == 0 and fam in MODS and (iso is None or (fam == "UZr" and isotopics[iso].get("uzr"))))
         b["grid"] = bool(allow_grid and hexgeom and draw(st.integers(0, 2)) == 0)
@@ -319,7 +323,17 @@ def render_block(spec, b, grids):
     if b["explicitBlockFlags"]:
         header.append("        flags: %s" % b["explicitBlockFlags"])
 
+    two_ducts = bool(hexgeom and b["template"] == "pin" and b.get("twoDucts"))
+    ip_pins = ip
+    if two_ducts:
+        in_op = r4(ip * 0.93)
+        ip_pins = r4(in_op * 0.95)
+
     def duct_and_inter():
+        if two_ducts:
+            comps.append(("inner duct", [("shape", spell("Hexagon")), ("material", "HT9"), ("Tinput", tin), ("Thot", min(thot, 470.0)), ("ip", _num(ip_pins)), ("mult", 1), ("op", _num(in_op))]))
+            if b.get("interduct"):
+                comps.append(("interductcoolant", [("shape", spell("Hexagon")), ("material", "Sodium"), ("Tinput", 450.0), ("Thot", 450.0), ("ip", "inner duct.op"), ("mult", 1.0), ("op", "duct.ip")]))
         if hexgeom:
             comps.append(("duct", [("shape", spell("Hexagon")), ("material", "HT9"), ("Tinput", tin), ("Thot", min(thot, 470.0)), ("ip", _num(ip)), ("mult", 1), ("op", _num(op))]))
             comps.append(("intercoolant", [("shape", spell("Hexagon")), ("material", "Sodium"), ("Tinput", 450.0), ("Thot", 450.0), ("ip", "duct.op"), ("mult", 1.0), ("op", _num(P))]))
@@ -337,7 +351,7 @@ def render_block(spec, b, grids):
             rings = 1
             while 1 + 3 * rings * (rings - 1) < n:
                 rings += 1
-            pp = ip * 0.985 / (SQRT3 * (rings - 1) + 1.15)
+            pp = ip_pins * 0.985 / (SQRT3 * (rings - 1) + 1.15)
             clad_od = r4(pp * 0.88)
             wire_od = r4(pp * 0.10)
         else:
@@ -360,6 +374,16 @@ def render_block(spec, b, grids):
         fault = b.get("fault")
         if fault == "pins-exceed-duct":
             clad_od = r4(clad_od * 2.2)
+        elif fault == "bundle-exceeds-inner-duct":
+            # HexBlock.verifyBlockDims: the cold flat-to-flat of the wire-wrapped bundle, sqrt3 (rings-1) (clad od + wire od) +
+            # clad od + 2 wire od, may exceed the inner flat-to-flat of the INNERMOST duct by at most 0.01 cm.  Here it is
+            # 4 % wider than the inner duct's ip and still 8 % narrower than the outer duct's
+            rings = 1
+            while 1 + 3 * rings * (rings - 1) < n:
+                rings += 1
+            bundle = SQRT3 * (rings - 1) * (clad_od + wire_od) + clad_od + 2.0 * wire_od
+            k = 1.04 * ip_pins / bundle
+            clad_od, wire_od = r4(clad_od * k), r4(wire_od * k)
         clad_id = r4(clad_od * b["fr"][0])
         if fault == "clad-inside-out":
             clad_id = r4(clad_od * 1.3)
@@ -652,8 +676,9 @@ FAULT_KINDS = [
     "duplicate-grid-location", "duplicate-attribute", "mult-conflict", "by-component-unknown", "invalid-mod-key", "bad-link",
     "unknown-shape", "unknown-flag", "isotopics-unknown", "fraction-sum", "density-with-number-densities", "unknown-grid-name",
     "dup-specifier", "dup-block-name", "dup-component-name", "dup-assembly-name", "dup-grid-name",
+    "bundle-exceeds-inner-duct",
 ]
-_BLOCK_FAULTS = {"pins-exceed-duct", "clad-inside-out", "mult-conflict", "bad-link", "unknown-shape", "isotopics-unknown", "unknown-grid-name", "dup-component-name"}
+_BLOCK_FAULTS = {"bundle-exceeds-inner-duct", "pins-exceed-duct", "clad-inside-out", "mult-conflict", "bad-link", "unknown-shape", "isotopics-unknown", "unknown-grid-name", "dup-component-name"}
 
 
 def _used_blocks(spec):
@@ -690,6 +715,8 @@ def faulty(spec, kind, a):
             pin = b["template"] == "pin"
             if kind in ("pins-exceed-duct", "clad-inside-out") and pin:
                 cands.append(k)
+            elif kind == "bundle-exceeds-inner-duct" and pin and spec["geom"].startswith("hex"):
+                cands.append(k)
             elif kind == "mult-conflict" and pin and b["grid"] and b["gridMult"] != "one":
                 cands.append(k)
             elif kind == "isotopics-unknown" and pin and b["iso"] is None:
@@ -702,6 +729,9 @@ def faulty(spec, kind, a):
             return None
         b = spec["blocks"][cands[a % len(cands)]]
         b["fault"] = kind
+        if kind == "bundle-exceeds-inner-duct":
+            # the well-formed base document is the same block with two ducts, a wire wrap and no pin lattice
+            b["twoDucts"], b["wire"], b["grid"] = True, True, False
         if kind == "bad-link":
             b["rotate"] = 0
         return render(spec)
